@@ -4,6 +4,12 @@ import json, os, sys
 HERE = os.path.dirname(os.path.dirname(os.path.abspath(__file__))); sys.path.insert(0, HERE)
 from sa import props, registry
 NOT_APPLICABLE = {}   # property id -> reason   (none declined entirely; see DESIGN.md section 4)
+def _evaluated(pid, p):
+    """clauses of the property whose deciding method is the interpretation of the anchored functions by the checker's own AST evaluator"""
+    ev = sorted(c for c, txt in p.get("decided", {}).items() if "evaluat" in txt or "state machine" in txt)
+    if not ev: return ""
+    return ("; clauses %s: AST interpretation of the anchored functions over finite sample objects by the checker's own evaluator (sa/pyeval.py: no textX code is imported, compiled or run by Python; "
+            "library calls and collaborators are stand-ins supplied by the analysis; a construct outside the evaluator's subset is an analysis error)" % ", ".join(ev))
 checks = []
 for pid in sorted(props.P):
     if pid in NOT_APPLICABLE: continue
@@ -19,7 +25,7 @@ for pid in sorted(props.P):
             "text": "Static analysis of /repo's current source: decides the structural clauses %s — each a necessary condition of the property (a counterexample input/history exists whenever one is false) — on every path / call site / table row of the anchored code. It does NOT decide the behavioural property as a whole: %s." % (", ".join(sorted(p["decided"])), p["declined"]),
             "design_ref": "DESIGN.md section 3, %s" % pid},
         "level_note": "Trusted base: CPython ast/symtable/re._parser; Arpeggio semantics as read from its installed source; spec tables transcribed from docs/src/*.md; confirmed callback table of the call graph. Nothing from textX is imported or executed. A construct outside a rule's supported subset or a vanished anchor is an analysis error (exit 2), never a pass.",
-        "technique": "static analysis: " + p["technique"],
+        "technique": "static analysis: " + p["technique"] + _evaluated(pid, p),
     })
 m = {
     "version": 1,
